@@ -1,0 +1,14 @@
+//go:build verif
+
+package genql
+
+// VerifStage, when installed by a verification harness, observes the rows
+// that flow between two stages of (*Query).exec. It is nil unless a harness
+// sets it and exists only in builds with the `verif` tag.
+var VerifStage func(query *Query, stage string, rows any)
+
+func verifStage(query *Query, stage string, rows any) {
+	if VerifStage != nil {
+		VerifStage(query, stage, rows)
+	}
+}
